@@ -19,7 +19,7 @@ from hv.findings import Known
 class Outcome:
     """Result of executing one case against the real code."""
 
-    __slots__ = ("violations", "nontrivial", "classes", "unspecified", "sample")
+    __slots__ = ("violations", "nontrivial", "classes", "unspecified", "sample", "counts")
 
     def __init__(self, violations=None, nontrivial=False, classes=(), unspecified=(), sample=None):
         self.violations = list(violations or [])
@@ -27,6 +27,7 @@ class Outcome:
         self.classes = list(classes)
         self.unspecified = list(unspecified)
         self.sample = sample
+        self.counts = {}  # additive counters reported in evidence (e.g. executions per program)
 
     def violate(self, sub: str, sig: str, detail) -> None:
         self.violations.append({"sub": sub, "sig": sig, "detail": detail})
@@ -76,6 +77,9 @@ class Judge:
                 "".join(traceback.format_exception(exc))[-2000:],
             )
         self.rec.case(case, out.nontrivial, out.classes, out.unspecified, out.sample)
+        if not self.rec.shrinking:
+            for ck, cv in out.counts.items():
+                self.rec.extra[ck] = self.rec.extra.get(ck, 0) + cv
         remaining = []
         for v in out.violations:
             k = self.known.match(v["sig"])
